@@ -2,8 +2,9 @@
 (* The Conn as a byte pipe (ech.go Read / Write, tls.go readRecord), in stream POSITIONS:
    which bytes are consumed from the client transport, buffered, delivered to the backend,
    accepted from the backend, withheld, forwarded to the client - for every fragmentation of
-   the transport reads, every caller buffer size, every split of the backend's writes and a
-   transport cut (EOF or error) at any byte offset.  Contents are checked by the harness
+   the transport reads, every caller buffer size, every split of the backend's writes, a
+   transport cut (EOF or error) at any byte offset and one transient transport error (a read
+   deadline that expires - the caller extends it and reads again) at any byte offset.  Contents are checked by the harness
    against the positions this specification prescribes.
 
    C07  order-preserving, lossless, at most one incomplete record withheld, everything
@@ -18,6 +19,7 @@ VARIABLES crecs,          \* Seq of [t : {"HS","CH","APP","OTHER","BIG"}, len : 
           brecs,          \* Seq of [t : {"SH","HRR","APP","HS","BAD","BIG"}, len : Nat]
           cutAt, cutKind, \* the client transport ends after cutAt bytes with "eof" or "err"
           firstIn, firstOut, accepted,   \* first hello: bytes consumed by NewConn, bytes it turned into, ECH accepted?
+          tmoAt,                         \* -1, or the stream position at which the transport reports one timeout (no bytes) before going on
           bigHdr                         \* implementation choice: is the header of an over-long record handed on before the decode error?
 \* read side
 VARIABLES tpos,           \* bytes consumed from the client transport
@@ -27,6 +29,7 @@ VARIABLES tpos,           \* bytes consumed from the client transport
           outTotal,       \* output bytes produced so far (delivered + pending)
           outpos,         \* output bytes delivered to the backend
           rPass, repl,    \* repl: the retried hello has been replaced by its inner hello
+          tmoDone,        \* the timeout has been reported by the transport
           lastRead        \* [n, err] of the latest Read call
 \* write side
 VARIABLES wtaken,         \* backend bytes accepted by Write calls
@@ -34,8 +37,8 @@ VARIABLES wtaken,         \* backend bytes accepted by Write calls
           bi,             \* next backend record not yet forwarded while inspecting
           wPass, armed, wErr, lastWrite
 
-scen  == <<crecs, brecs, cutAt, cutKind, firstIn, firstOut, accepted, bigHdr>>
-rvars == <<tpos, ri, lo, hi, rErr, outTotal, outpos, rPass, repl, lastRead>>
+scen  == <<crecs, brecs, cutAt, cutKind, firstIn, firstOut, accepted, tmoAt, bigHdr>>
+rvars == <<tpos, ri, lo, hi, rErr, outTotal, outpos, rPass, repl, tmoDone, lastRead>>
 wvars == <<wtaken, wfwd, bi, wPass, armed, wErr, lastWrite>>
 vars  == <<scen, rvars, wvars>>
 
@@ -48,18 +51,23 @@ Min(a, b) == IF a < b THEN a ELSE b
 
 InitState ==
   /\ tpos = firstIn /\ ri = 1 /\ lo = 0 /\ hi = firstOut /\ rErr = "none" /\ outTotal = firstOut /\ outpos = 0
-  /\ rPass = ~accepted /\ repl = FALSE /\ lastRead = [n |-> -1, err |-> "none"]
+  /\ rPass = ~accepted /\ repl = FALSE /\ tmoDone = FALSE /\ lastRead = [n |-> -1, err |-> "none"]
   /\ wtaken = 0 /\ wfwd = 0 /\ bi = 1 /\ wPass = ~accepted /\ armed = FALSE /\ wErr = FALSE
   /\ lastWrite = [n |-> -1, err |-> "none"]
 
 \* ------------------------------------------------------------------ read side
 \* fill readBuf from the transport, record at a time (tls.go readRecord + ech.go:305-331)
 \* returns the new <<tpos, ri, hi, rErr, outTotal, rPass>> after reading one record (or what the cut leaves of it)
+\* the timeout is still to come and falls on a transport read that starts inside [tpos, end)
+TmoIn(end) == ~tmoDone /\ tmoAt >= tpos /\ tmoAt < end
 Fill ==
   IF ri > Len(crecs) \/ cutAt < tpos + 5      \* no further complete header: the cut truncates it
-  THEN [tpos |-> cutAt, ri |-> ri, add |-> cutAt - tpos, err |-> cutKind, pass |-> rPass, repl |-> FALSE]
+  THEN IF TmoIn(cutAt) THEN [tpos |-> tmoAt, ri |-> ri, add |-> tmoAt - tpos, err |-> "tmo", pass |-> rPass, repl |-> FALSE]
+       ELSE [tpos |-> cutAt, ri |-> ri, add |-> cutAt - tpos, err |-> cutKind, pass |-> rPass, repl |-> FALSE]
   ELSE LET r == crecs[ri] IN
-    IF r.t = "BIG" THEN [tpos |-> tpos + 5, ri |-> ri, add |-> IF bigHdr THEN 5 ELSE 0, err |-> "decode", pass |-> rPass, repl |-> FALSE]
+    IF TmoIn(tpos + 5) THEN [tpos |-> tmoAt, ri |-> ri, add |-> tmoAt - tpos, err |-> "tmo", pass |-> rPass, repl |-> FALSE]
+    ELSE IF r.t = "BIG" THEN [tpos |-> tpos + 5, ri |-> ri, add |-> IF bigHdr THEN 5 ELSE 0, err |-> "decode", pass |-> rPass, repl |-> FALSE]
+    ELSE IF TmoIn(Min(cutAt, tpos + 5 + r.len)) THEN [tpos |-> tmoAt, ri |-> ri, add |-> tmoAt - tpos, err |-> "tmo", pass |-> rPass, repl |-> FALSE]
     ELSE IF cutAt < tpos + 5 + r.len THEN [tpos |-> cutAt, ri |-> ri, add |-> cutAt - tpos, err |-> cutKind, pass |-> rPass, repl |-> FALSE]
     ELSE IF r.t = "APP" THEN [tpos |-> tpos + 5 + r.len, ri |-> ri + 1, add |-> 5 + r.len, err |-> "none", pass |-> TRUE, repl |-> FALSE]
     ELSE IF r.t = "CH" /\ armed THEN [tpos |-> tpos + 5 + r.len, ri |-> ri + 1, add |-> r.out, err |-> "none", pass |-> TRUE, repl |-> TRUE]
@@ -71,26 +79,34 @@ Read(cap, k) ==
   /\ IF ~rPass /\ lo = hi /\ rErr = "none"
      THEN \* inspect one record, then deliver from it
        LET f == Fill  nhi == hi + f.add  n == Min(cap, nhi - lo) IN
-       /\ tpos' = f.tpos /\ ri' = f.ri /\ hi' = nhi /\ rErr' = f.err /\ outTotal' = outTotal + f.add /\ rPass' = f.pass /\ repl' = (repl \/ f.repl)
-       /\ lo' = lo + n /\ outpos' = outpos + n
-       \* (the pending error comes with the last buffered bytes - as the code does - or from the next call)
-       /\ \E e \in (IF lo + n = nhi THEN (IF n > 0 THEN {f.err, "none"} ELSE {f.err}) ELSE {"none"}) : lastRead' = [n |-> n, err |-> e]
-       /\ k = 0
+       \/ /\ tpos' = f.tpos /\ ri' = f.ri /\ hi' = nhi /\ rErr' = f.err /\ outTotal' = outTotal + f.add /\ rPass' = f.pass /\ repl' = (repl \/ f.repl)
+          /\ tmoDone' = (tmoDone \/ f.err = "tmo")
+          /\ lo' = lo + n /\ outpos' = outpos + n
+          \* (the pending error comes with the last buffered bytes - as the code does - or from the next call)
+          /\ \E e \in (IF lo + n = nhi THEN (IF n > 0 THEN {f.err, "none"} ELSE {f.err}) ELSE {"none"}) : lastRead' = [n |-> n, err |-> e]
+          /\ k = 0
+       \* A timeout inside a record: the code hands on what it has of the record and keeps the error for good (above). Also
+       \* admitted - nothing in the property forbids it - is a Conn that keeps the partial record to itself, reports the
+       \* timeout once and goes on with the record at the next call.
+       \/ /\ f.err = "tmo" /\ tmoDone' = TRUE /\ lastRead' = [n |-> 0, err |-> "tmo"] /\ k = 0
+          /\ UNCHANGED <<tpos, ri, lo, hi, rErr, outTotal, outpos, rPass, repl>>
      ELSE IF lo < hi
      THEN LET n == Min(cap, hi - lo) IN
        /\ lo' = lo + n /\ outpos' = outpos + n
        /\ \E e \in (IF lo + n = hi THEN (IF n > 0 THEN {rErr, "none"} ELSE {rErr}) ELSE {"none"}) : lastRead' = [n |-> n, err |-> e]
-       /\ UNCHANGED <<tpos, ri, hi, rErr, outTotal, rPass, repl>> /\ k = 0
+       /\ UNCHANGED <<tpos, ri, hi, rErr, outTotal, rPass, repl, tmoDone>> /\ k = 0
      ELSE IF rErr # "none"
-     THEN /\ lastRead' = [n |-> 0, err |-> rErr] /\ UNCHANGED <<tpos, ri, lo, hi, rErr, outTotal, outpos, rPass, repl>> /\ k = 0
+     THEN /\ lastRead' = [n |-> 0, err |-> rErr] /\ UNCHANGED <<tpos, ri, lo, hi, rErr, outTotal, outpos, rPass, repl, tmoDone>> /\ k = 0
      ELSE \* passthrough: the call is the transport's
-       IF tpos = cutAt
-       THEN /\ lastRead' = [n |-> 0, err |-> cutKind] /\ k = 0 /\ UNCHANGED <<tpos, ri, lo, hi, rErr, outTotal, outpos, rPass, repl>>
-       ELSE /\ k \in 1..Min(cap, cutAt - tpos)
+       IF ~tmoDone /\ tpos = tmoAt     \* the transport's timeout is the call's; the next call goes on where the stream stands
+       THEN /\ lastRead' = [n |-> 0, err |-> "tmo"] /\ tmoDone' = TRUE /\ k = 0 /\ UNCHANGED <<tpos, ri, lo, hi, rErr, outTotal, outpos, rPass, repl>>
+       ELSE IF tpos = cutAt
+       THEN /\ lastRead' = [n |-> 0, err |-> cutKind] /\ k = 0 /\ UNCHANGED <<tpos, ri, lo, hi, rErr, outTotal, outpos, rPass, repl, tmoDone>>
+       ELSE /\ k \in 1..Min(cap, (IF ~tmoDone /\ tmoAt > tpos THEN tmoAt ELSE cutAt) - tpos)
             /\ tpos' = tpos + k /\ outTotal' = outTotal + k /\ outpos' = outpos + k /\ lo' = lo + k /\ hi' = hi + k
             \* (an io.Reader may hand over its last bytes together with the error; the call is the transport's)
             /\ \E e \in (IF tpos + k = cutAt THEN {"none", cutKind} ELSE {"none"}) : lastRead' = [n |-> k, err |-> e]
-            /\ UNCHANGED <<ri, rErr, rPass, repl>>
+            /\ UNCHANGED <<ri, rErr, rPass, repl, tmoDone>>
   /\ UNCHANGED <<scen, wvars>>
 
 \* ------------------------------------------------------------------ write side
@@ -136,6 +152,9 @@ NeverZeroNil    == lastRead.n = 0 => lastRead.err # "none"
 BufBound        == hi - lo <= 5 + MaxRec /\ (~wErr => wtaken - wfwd < 5 + MaxRec)
 ErrorIsTheCut   == lastRead.err \in {"eof", "err"} => lastRead.err = cutKind
 TypeOK == /\ tpos <= cutAt /\ outpos >= 0 /\ wfwd >= 0
-          /\ rErr \in {"none", "eof", "err", "decode"}
+          /\ rErr \in {"none", "eof", "err", "decode", "tmo"} /\ (tmoAt = -1 \/ (tmoAt >= firstIn /\ tmoAt < cutAt))
+\* a transient transport error loses nothing: afterwards the stream is delivered from where it stood, or (a timeout that
+\* fell inside a record under inspection) the error stays - never bytes that are not the stream's
+TmoKeepsOrder == (lastRead.err = "tmo") => (lastRead.n = 0 \/ rErr = "tmo")
 Delivered == outpos = outTotal /\ tpos = cutAt
 =============================================================================
